@@ -144,7 +144,10 @@ def smooth_system():
     return sysm
 
 
-def schedule(h, solver="BackwardEuler", system="contact", cont=False):
+FIELDS = ("q", "u", "q_dot", "u_dot", "la_g", "la_gamma", "la_c", "la_N", "la_F", "P_g", "P_gamma", "P_N", "P_F")
+
+
+def schedule(h, solver="BackwardEuler", system="contact", cont=False, only_rows=False):
     import importlib
     from cardillo.solver import SolverOptions
     mon = Monitor(h)
@@ -167,10 +170,18 @@ def schedule(h, solver="BackwardEuler", system="contact", cont=False):
             mon.step = 0
             sol = S.solve()
             out["nt"] = len(sol.t)
-            rows = [len(getattr(sol, f)) for f in ("q", "u") if getattr(sol, f, None) is not None]
-            out["rows_ok"] = all(r == len(sol.t) for r in rows)
+            rows = {f: len(getattr(sol, f)) for f in FIELDS if getattr(sol, f, None) is not None}
+            out["rows_ok"] = all(r == len(sol.t) for r in rows.values())
+            out["rows"] = dict(rows, t=len(sol.t))
         except (RuntimeError, AssertionError, ValueError) as e:
             out["raised"] = type(e).__name__
+    if only_rows:
+        # (used by C20: the Solution contract also holds for runs that stop early)
+        if out["nt"] is not None:
+            h.holds("every stored field has one row per stored instant (all fault schedules, incl. truncated runs)", bool(out["rows_ok"]), info=str(out.get("rows")))
+        else:
+            h.holds("run raised instead of returning", out["raised"] is not None)
+        return
     said = lambda m: "not converged" in m.lower() or "unconverged" in m.lower()
     warned = [m for m in cap["warnings"] if said(m)]
     notices = warned + [m for m in cap["prints"] if said(m)]
